@@ -68,7 +68,7 @@ def handle (req : Json) : Json :=
                               ("outVars", toJson m.outVars)]
       | .error e => Json.mkObj [("err", errName e)]
     return Json.mkObj [("res", res), ("names", Json.arr names.toArray),
-                       ("free", toJson (freeArgs P outs))]) with
+                       ("free", toJson (freeArgs P outs)), ("wf", Json.bool (wfb P))]) with
   | .ok j => j
   | .error e => Json.mkObj [("error", e)]
 
